@@ -176,6 +176,19 @@ Theorem C19_run_not_found : forall (W : World) st arg name,
 Proof. exact run_not_found. Qed.
 Print Assumptions C19_run_not_found.
 
+(* fix-G: quoting. `.run "NAME"` / `.run 'NAME'` looks up NAME as a whole, blanks included (shlex.split, not
+   str.split): every query directive name without the quote character (and, inside double quotes, without a
+   backslash) can be run by quoting it, and a quoted unknown name is reported as not found, under that name. *)
+Theorem C19_run_quoted_name : forall (W : World) st q name,
+  sh_quote q = true -> (forall c, In c name -> c <> q /\ (q = 34 -> c <> 92)) ->
+  do_run W st (q :: name ++ [q]) =
+  match find_query W name with
+  | Some d => execute W st (q_text d) (Some (q_date d))
+  | None => [error W (s2z "query """ ++ name ++ s2z """ not found")]
+  end.
+Proof. exact run_quoted_name. Qed.
+Print Assumptions C19_run_quoted_name.
+
 (* of several directives with one name the first is the named query *)
 Theorem C19_first_directive_wins : forall (W : World) name,
   find_query W name = find (fun q => str_eqb (q_name q) name) (directives W).
@@ -207,6 +220,15 @@ Proof.
   intros r Hr. exact (cli_error_report W c r Hr).
 Qed.
 Print Assumptions C19_cli_options.
+
+(* fix-G: the name of the -o file plays no part: settings, startup report and the command's events are those of
+   the same options with any other output target (the format is the -f option, never the file's extension) *)
+Theorem C19_cli_output_name_irrelevant : forall (W : World) c o,
+  let c' := {| c_format := c_format c; c_numberify := c_numberify c; c_output := o; c_quiet := c_quiet c;
+               c_query := c_query c; c_stdin := c_stdin c |} in
+  cli_state c' = cli_state c /\ snd (cli_run W c') = snd (cli_run W c) /\ fst (fst (cli_run W c')) = fst (fst (cli_run W c)).
+Proof. exact cli_output_name_irrelevant. Qed.
+Print Assumptions C19_cli_output_name_irrelevant.
 
 (* ---- non-vacuity: a concrete session in a small world ---- *)
 Definition demo_world : World :=
@@ -241,6 +263,25 @@ Example C19_example_hypotheses :
   classify (s2z "set boxed 1") = Command true (s2z "set") (s2z "boxed 1") /\
   find_query demo_world (s2z "one") <> None.
 Proof. vm_compute. repeat split; discriminate. Qed.
+
+(* fix-G: a named query whose name contains a blank, run quoted / unquoted; an unknown quoted name *)
+Definition demo_world2 : World :=
+  sym_world [{| f_text := s2z "SELECT 1"; f_parse_ok := true; f_kind := KSelect; f_from := FFrom; f_close := CNone;
+                f_ok := true; f_ok_closed := true; f_empty := false; f_empty_closed := true |}]
+            [{| q_name := s2z "two words"; q_text := s2z "SELECT 1"; q_date := 738000 |}] false.
+Example C19_example_run_quoted :
+  map (fun x => snd (fst x))
+    [step demo_world2 false init_state (s2z ".run ""two words""");
+     step demo_world2 false init_state (s2z ".run 'two words';");
+     step demo_world2 false init_state (s2z ".run two\ words");
+     step demo_world2 false init_state (s2z ".run two words");
+     step demo_world2 false init_state (s2z ".run ""no such query""")]
+  = [[println demo_world2 Outfile (s2z "(empty)")];
+     [println demo_world2 Outfile (s2z "(empty)")];
+     [println demo_world2 Outfile (s2z "(empty)")];
+     [error demo_world2 (s2z "too many arguments for ""run"" command")];
+     [error demo_world2 (s2z "query ""no such query"" not found")]].
+Proof. vm_compute. reflexivity. Qed.
 
 Import Verif.Base.PyValue Verif.Model.PyMini Verif.Model.PrimsApi Verif.Model.PrimsShell Verif.Gen.SrcShell Verif.Proofs.SrcShell Verif.Proofs.SrcShellSet.
 
